@@ -50,11 +50,11 @@ def library():
         # aggregates returned by a call and stored: the receiver owns a copy (a later write to the source does not show)
         A.func("getga", [], A.arr(INT, [3]), A.block([A.ret(V("ga"))])),
         A.func("getgs", [], s0, A.block([A.ret(V("gs"))])),
-        A.func("pick", [("a", INT)], INT, A.block([A.estmt(A.asg(V("gb"), A.call("getga", []))), A.estmt(A.asg(V("gt"), A.call("getgs", []))),
+        A.func("pick", [("a", INT)], INT, A.block([A.decl("t", A.arr(INT, [3]), A.call("getga", [])), A.decl("u", s0, A.call("getgs", [])),
                                                    A.estmt(A.asg(A.idx(V("ga"), L(1)), B("+", A.idx(V("ga"), L(1)), V("a")))),
                                                    A.estmt(A.asg(A.mem(V("gs"), "a"), B("+", A.mem(V("gs"), "a"), V("a")))),
-                                                   A.decl("t", A.arr(INT, [3]), A.call("getga", [])), A.estmt(A.asg(A.idx(V("t"), L(2)), L(77))),
-                                                   A.ret(B("+", B("+", A.idx(V("gb"), L(1)), A.mem(V("gt"), "a")), A.idx(V("ga"), L(2))))]), True),
+                                                   A.estmt(A.asg(A.idx(V("t"), L(2)), L(77))), A.estmt(A.asg(V("gb"), V("t"))), A.estmt(A.asg(V("gt"), V("u"))),
+                                                   A.ret(B("+", B("+", A.idx(V("t"), L(1)), A.mem(V("u"), "a")), A.idx(V("ga"), L(2))))]), True),
     ]
     prog = A.prog(gl, fs, [s0])
     init = {n: A.enc(A.zero_py(t), t) for n, t in gl}
